@@ -166,7 +166,12 @@ class HistMonitor:
         self.unc_between = False
         self.dead = False
         self.values_off = False
-        self.reset_policies()
+        self.pols = None
+        self.tags_prev = None
+        if self.acct:
+            # the policy monitor needs to know every access event; a REJECTED access may or may not have touched
+            # the replacement state (unspecified, DESIGN 5-r3), so it runs in accounting histories only
+            self.reset_policies()
 
     def fail(self, prop, kind, msg, fatal=True, **extra):
         v_case = dict(self.case)
@@ -191,8 +196,9 @@ class HistMonitor:
                 self.fail("C09", "preload-counted", "parser-style preload changed counters: %r cycles=%d" % (st, self.pm.cycles))
 
     def op(self, i, op, a, w, v):
+        self._events_done = False
         self._op(i, op, a, w, v)
-        if self.pols is not None and not (self.dead and self.res.prop == "C10"):
+        if self.pols is not None and not self._events_done and not (self.dead and self.res.prop == "C10"):
             if op == "reset":
                 pass  # policies were re-created right after the reset (before the read-back)
             elif op == "p":
@@ -268,6 +274,7 @@ class HistMonitor:
             res.count("crossing_rejected")
             if self.pols is not None:
                 self.policy_events(where + " (rejected)", a)
+                self._events_done = True  # (the read-back below records its own events)
             # cache state / counters after a rejected access are unspecified: re-synchronise nothing,
             # judge only stored values (read everything back) and the C12 invariant
             self.readback(where + " (rejected)")
@@ -511,7 +518,8 @@ def run_bfs(spec, res, prop):
     seen = {key(m0, {})}
     mon0 = HistMonitor.__new__(HistMonitor)
     HistMonitor_init_light(mon0, case0, res, prop, m0, {}, universe, ref0 if acct else None)
-    mon0.reset_policies()
+    if acct:
+        mon0.reset_policies()
     frontier = [(m0, {}, [], ref0, (mon0.pols, mon0.tags_prev))]
     trans = 0
     depth_reached = 0
@@ -632,7 +640,7 @@ def run_prog(case, res, prop):
             out = pipe.run_five(c5, res, prop, ref)
             if out is None or out["rfault"] is not None:
                 # value/order monitors (not timing/penalty ones - those are C07/C09) firing only with the cache on
-                if dc is not None and fin.get(False) is not None and (out is not None or pipe.LAST["tag"] in ("C02", "C08")):
+                if dc is not None and fin.get(False) is not None and (out is not None or pipe.last_was_value_violation()):
                     res.violation("C03", "prog-result", "hazard detection off: the pipeline's value/order monitors are silent without data cache but fire / fault with it", case)
                     return
                 fin = None
@@ -657,7 +665,7 @@ def run_prog(case, res, prop):
                         return  # not a cache matter (the pipeline monitors have recorded it under their own property)
                     if out is not None:
                         res.violation("C03", "prog-fault", "five-stage with dcache=%r raised %r on a fault-free program that runs without data cache" % (dc, out["rfault"]), case)
-                    elif pipe.LAST["tag"] in ("C02", "C08"):
+                    elif pipe.last_was_value_violation():
                         res.violation("C03", "prog-result", "five-stage: the value/order monitors are silent without data cache but fire with dcache=%r" % (dc,), case)
                     return
                 sim = out["sim"]
